@@ -376,6 +376,10 @@ def run(chk: Check) -> None:
             key, rest = (ln[:26], ln[27:]) if len(ln) > 27 else (ln, "")
             if key in d:
                 continue
+            # a saved-state dict written elsewhere (another version, another tool): time stamps with a UTC offset or a 'Z',
+            # alone or among naive ones
+            if fi % 3 == 0 and rnd.random() < 0.3 and len(ln) > 27:
+                key = key + rnd.choice(("+01:00", "+00:00", "-05:30", "Z"))
             d[key] = rest
         gotd, errd = rt.replay_dict(d)
         chk.evaluations += 1
